@@ -125,6 +125,9 @@ class OpCase:
         for i, sp in enumerate(specs):
             dt = np.dtype(dtypes[i]) if dtypes else dtype
             a = env.arr(sp.label, sp.shape, dt, **sp.dom)
+            layout = self.variant.get("layout")
+            if layout and i == 0 and len(sp.shape) >= 2:
+                a = relayout(a, layout)
             names[sp.label] = elem_names(sp.label, sp.shape)
             r = bool(req[i]) if req is not None else (req_default and sp.differentiable)
             t = Tn(a, requires_grad=r and sp.differentiable)
@@ -320,6 +323,30 @@ class OpCase:
                          gr.dtype, tuple(gr.shape), t.dtype, tuple(t.shape), gdtype))
             out.notes["obs:grad(%s)" % sp.label] = t._grad
         return out
+
+
+def relayout(a, layout):
+    """same elements, same shape, different memory layout: 'T' = Fortran order (a transposed view of a C-ordered
+    buffer), 'S' = every second element of a buffer twice as wide (stepped slice).  Operands reaching an op as
+    non-contiguous views is ordinary API use (slicing and transposing return views)."""
+    raw = a.view(np.ndarray) if isinstance(a, ar.SymArray) else a
+    if layout == "T":
+        buf = np.empty(raw.shape[::-1], dtype=raw.dtype)
+        v = buf.transpose()
+    elif layout == "S":
+        buf = np.empty(raw.shape[:-1] + (2 * raw.shape[-1],), dtype=raw.dtype)
+        if raw.dtype == object:
+            buf[...] = S(sc.const(0))
+        else:
+            buf[...] = 0
+        v = buf[..., ::2]
+    else:
+        raise ValueError(layout)
+    v[...] = raw
+    if isinstance(a, ar.SymArray):
+        v = v.view(ar.SymArray)
+        v._nd = a._nd
+    return v
 
 
 def snapshot(a):
